@@ -1,4 +1,5 @@
 import Bt.Proofs.ProgramRPos
+import Bt.Proofs.ProgramRCash
 import Bt.Proofs.ProgramREx
 /-! C18 ("replaying a transaction list through `ReplayTransactions` reproduces its positions") for the whole-program model of
     blotter-driven strategies (`Bt.Prog.progRunR`, tied to bt/algos.py by the `whole-run-r` protocol).
@@ -99,6 +100,58 @@ theorem shadow_replay_positions (cfg : Cfg K) (p : ProgR K) (hs : p.timeline.Pai
   obtain ⟨hfr, hp⟩ := paperLoop_pos p hf (fun d hd => by have := (List.mem_range'_1.1 hd).1; omega) h hnb
   exact ⟨hfr, fun j => by rw [hp j, daysSum_range j p.timeline hs n hlen a b ha hb p.rows]⟩
 
+/-! ### the cash a call takes ("… reproduces its positions **and values**": the cash leg) -/
+
+/-- **one row of the frame** takes `quantity × price × multiplier` plus the commission at `(quantity, price × multiplier)` out of
+    the root's cash (nothing when `is_zero(quantity)`): at the listed price, whatever the market price of the date -/
+theorem replay_row_cash (cfg : Cfg K) (mult : Option K) (w w' : World K) (r : Int × BRow K) (hf : Flat w)
+    (h : execRow cfg mult [] w r = .ok w') :
+    rootCap w' = rootCap w - tradeCost cfg (rootComm w) (multAt w r.2.1) r.2.2.1 (rowPrice mult r.2.2.2) :=
+  (execRow_cash hf h).1
+
+/-- **the rows of one call** (one window of the timeline, however many fills of however many names it holds): the root's cash goes
+    down by the sum of the rows' costs, each row priced on its own -/
+theorem replay_call_cash (cfg : Cfg K) (mult : Option K) (rows : List (Int × BRow K)) (w w' : World K) (hf : Flat w)
+    (h : execRows cfg mult [] rows w = .ok w') : rootCap w' = rootCap w - costSum cfg mult w rows :=
+  (execRows_cash rows hf h).1
+
+theorem costSum_perm (cfg : Cfg K) (mult : Option K) (w : World K) {l1 l2 : List (Int × BRow K)} (hp : l1.Perm l2) :
+    costSum cfg mult w l1 = costSum cfg mult w l2 := by
+  induction hp with
+  | nil => rfl
+  | cons x _ ih => simp only [costSum, ih]
+  | swap x y l => simp only [costSum]; ring
+  | trans _ _ ih1 ih2 => exact ih1.trans ih2
+
+theorem qsum_perm (cfg : Cfg K) (j : Nat) {l1 l2 : List (Int × BRow K)} (hp : l1.Perm l2) : qsum cfg j l1 = qsum cfg j l2 := by
+  induction hp with
+  | nil => rfl
+  | cons x _ ih => simp only [qsum, ih]
+  | swap x y l => simp only [qsum]; ring
+  | trans _ _ ih1 ih2 => exact ih1.trans ih2
+
+/-- **the order of the rows inside a call does not matter**: two calls on the same rows in different orders, both completing, leave
+    the same cash and the same positions -/
+theorem replay_call_order_irrelevant (cfg : Cfg K) (mult : Option K) (rows1 rows2 : List (Int × BRow K)) (hp : rows1.Perm rows2)
+    (w w1 w2 : World K) (hf : Flat w) (h1 : execRows cfg mult [] rows1 w = .ok w1) (h2 : execRows cfg mult [] rows2 w = .ok w2) :
+    rootCap w1 = rootCap w2 ∧ ∀ j, posAt w1 j = posAt w2 j := by
+  refine ⟨?_, fun j => ?_⟩
+  · rw [replay_call_cash cfg mult rows1 w w1 hf h1, replay_call_cash cfg mult rows2 w w2 hf h2, costSum_perm cfg mult w hp]
+  · rw [(execRows_pos rows1 hf h1).2 j, (execRows_pos rows2 hf h2).2 j, qsum_perm cfg j hp]
+
+/-- **a round trip inside one window is not a non-event**: buying `q` of a name at `p1` and selling it at `p2` in the same call
+    nets to a zero quantity, but costs `q × (p1 − p2) × multiplier` (commission-free) - the realised P&L.  (A replay that nets the
+    fills of a name to one trade at the average price - the seeded change C18_10 - divides `0 / 0` here and drops it.) -/
+theorem round_trip_cost (cfg : Cfg K) (w : World K) (i : Nat) (q p1 p2 : K) (s1 s2 : Int)
+    (hq : isZero cfg.tol q = false) (hq' : isZero cfg.tol (-q) = false) (hfree : rootComm w = fun _ _ => 0) :
+    costSum cfg none w [(s1, (i, q, p1)), (s2, (i, -q, p2))] = q * (p1 - p2) * multAt w i ∧
+    qsum cfg i [(s1, (i, q, p1)), (s2, (i, -q, p2))] = 0 := by
+  constructor
+  · simp only [costSum, rowCost, tradeCost, rowPrice, hq, hq', hfree, Bool.false_eq_true, ↓reduceIte]
+    ring
+  · simp only [qsum, rowQ, hq, hq', and_self, ↓reduceIte]
+    ring
+
 /-- a run over any list of dates: the sum over the days (no hypothesis on the timeline) -/
 theorem replay_loop_positions (cfg : Cfg K) (p : ProgR K) (ds : List Nat) (w r : World K) (hf : Flat w)
     (h : btLoop cfg (progRunR cfg p []) ds w = .ok r) (hnb : r.bankrupt = false) :
@@ -178,5 +231,17 @@ example : ∃ w1 r, opAdjust wRA [] 1000 true true = .ok w1 ∧
   obtain ⟨hf1, hp1⟩ := opAdjust_root_pos wRA_flat h1
   refine ⟨w1, r, h1, hp, fun j => ?_, ha.2.1, ha.2.2⟩
   rw [(shadow_replay_positions cfgE progRA tlE_increasing 3 rfl 0 30 rfl rfl w1 r hf1 hp ha.1).2 j, hp1 j]
+
+/-- on data set A, after the update of row 1: the two rows of the window `(0, 10]` (2 `y` at 20, 1 `y` at 19) take 59 out of the
+    cash, in either order - what `costSum` says; a round trip in `x` (5 at 11, back at 12) pays 5 -/
+example : ((updRoot cfgE 1 wRA).toOption.bind fun w1 =>
+      (execRows cfgE none [] [(10, (1, 2, 20)), (5, (1, 1, 19))] w1).toOption.map fun w2 => (Flat w1, rootCap w1 - rootCap w2,
+        costSum cfgE none w1 [(10, (1, 2, 20)), (5, (1, 1, 19))])).map (fun t => (t.2.1, t.2.2)) = some (59, 59) ∧
+    ((updRoot cfgE 1 wRA).toOption.bind fun w1 =>
+      (execRows cfgE none [] [(5, (1, 1, 19)), (10, (1, 2, 20))] w1).toOption.map fun w2 => rootCap w1 - rootCap w2) = some 59 ∧
+    ((updRoot cfgE 2 wRA).toOption.bind fun w1 =>
+      (execRows cfgE none [] [(15, (0, 5, 11)), (16, (0, -5, 12))] w1).toOption.map fun w2 =>
+        (rootCap w1 - rootCap w2, posAt w2 0 - posAt w1 0)) = some (-5, 0) := by
+  refine ⟨by decide +kernel, by decide +kernel, by decide +kernel⟩
 
 end Bt.C18
